@@ -25,17 +25,25 @@ def main():
             print(sd, 'PATCH-DOES-NOT-APPLY', r.stderr.strip()[:200]); continue
         row = {}
         try:
-            for p in (props or allp) :
-                r = sh('cd /verif && ./check %s' % p)
-                row[p] = {0: '-', 1: 'CAUGHT', 2: 'ERR'}.get(r.returncode, '?')
-                if r.returncode == 2:
-                    row[p] = 'ERR:' + r.stderr.strip()[-200:]
-                if r.returncode == 1 and os.environ.get('SEED_VERBOSE'):
-                    print(r.stdout[-1500:])
+            from concurrent.futures import ThreadPoolExecutor
+            plist = list(props or allp)
+            sh('cd /verif && python3 engine/py/facts.py')     # one extraction, then the checks share it
+            def one(p):
+                return p, sh('cd /verif && ./check %s' % p)
+            with ThreadPoolExecutor(max_workers=9) as ex:
+                for p, r in ex.map(one, plist):
+                    row[p] = {0: '-', 1: 'CAUGHT', 2: 'ERR'}.get(r.returncode, '?')
+                    if r.returncode == 2:
+                        row[p] = 'ERR:' + r.stderr.strip()[-200:]
+                    if r.returncode == 1:
+                        keys = [l.split('replay=')[1].split('/')[-1][:-5] for l in r.stdout.splitlines() if l.startswith('VIOLATION')]
+                        row[p + ':keys'] = keys[:6]
+                    if r.returncode == 1 and os.environ.get('SEED_VERBOSE'):
+                        print(r.stdout[-1500:])
         finally:
             sh('git -C /repo checkout -- . && git -C /repo clean -fdq -e target')
         caught = [p for p, v in row.items() if v == 'CAUGHT']
-        errs = {p: v for p, v in row.items() if v.startswith('ERR')}
+        errs = {p: v for p, v in row.items() if isinstance(v, str) and v.startswith('ERR')}
         print(sd, 'caught by', caught or 'NOTHING', errs or '', flush=True)
         json.dump(row, open(os.path.join(sd, 'checks.json'), 'w'), indent=1)
 
